@@ -74,7 +74,7 @@ func baseProfile() Profile {
 		Weights: map[string]int{
 			KDelegate: 22, KUndelegate: 14, KRedelegate: 10, KClaim: 6, KBlock: 22, KSlashHook: 3, KSlash: 4,
 			KDonate: 2, KNatDel: 2, KNatUndel: 2, KJail: 1, KUnjail: 1, KUpdate: 2, KUnbTime: 1, KCreate: 1, KDelete: 1,
-			GDrainAsset: 2, GShareFraction: 2,
+			GDrainAsset: 2, GShareFraction: 2, KReimport: 2,
 		},
 		MinSteps: 4, MaxSteps: 40,
 		UnbTimes:   []int64{ns, sec, 3600 * sec, 21 * day},
@@ -1027,6 +1027,26 @@ func (g *Gen) Step() {
 		x.Apply(Op{K: KMaxVals, N: 3 + g.intn("maxvals", 4)})
 	case KExportImp:
 		x.Apply(Op{K: KExportImp})
+	case KReimport:
+		// only at a block boundary (an export is taken between blocks), and not while the listed
+		// finding F-C18a applies (redelegations from different sources merged into one record: the
+		// export cannot list the other sources) — excluded by construction, counted
+		groups := map[string]map[int]bool{}
+		for _, r := range x.L.Redel {
+			k := fmt.Sprintf("%d|%d|%s|%d", r.D, r.T, r.Denom, r.Completion.UnixNano())
+			if groups[k] == nil {
+				groups[k] = map[int]bool{}
+			}
+			groups[k][r.S] = true
+		}
+		for _, gr := range groups {
+			if len(gr) >= 2 {
+				x.Label("excluded:F-C18a-merged-redelegation-record-at-export")
+				return
+			}
+		}
+		x.Apply(Op{K: KBlock, Dt: g.dt(), Fees: g.fees()})
+		x.Apply(Op{K: KReimport})
 	case KValExit:
 		// prefer validators that still exist; a short unbonding time lets the removal happen soon
 		var exist []int
